@@ -35,9 +35,59 @@
 
 #include "layout.hh"
 
+#ifdef DWGREP_VERIF
+# include <map>
+# include <typeinfo>
+# include <type_traits>
+
+// Verification hooks. All of these have weak default definitions in scon.cc,
+// a harness can override them by providing strong ones.
+extern "C"
+{
+  // Called when a state lifecycle invariant is broken. Default prints MSG
+  // prefixed with "DWGREP_VERIF scon: " and aborts.
+  void dwgrep_verif_fail (char const *msg);
+
+  // The byte that a fresh scon is filled with. Default 85.
+  int dwgrep_verif_poison (void);
+
+  // Whether something unusual but legal should happen at SITE. Default 0.
+  int dwgrep_verif_unusual (char const *site);
+
+  // Number of scon objects currently alive.
+  long dwgrep_verif_live_scons (void);
+
+  // Each new scon is stamped with the value that this holds at that time.
+  extern unsigned long dwgrep_verif_tag;
+
+  // Call CB for each live state of each live scon.
+  void dwgrep_verif_census (void (*cb) (unsigned long tag,
+					char const *type_name, void *data),
+			    void *data);
+}
+#endif
+
 class scon
 {
   std::vector <uint8_t> m_buf;
+
+#ifdef DWGREP_VERIF
+public:
+  struct verif_ent
+  {
+    size_t m_size;
+    std::type_info const *m_type;
+    bool m_trivial;
+  };
+
+  std::map <size_t, verif_ent> m_verif_live;
+  unsigned long m_verif_tag;
+
+private:
+  void verif_con (size_t loc, size_t size, size_t align,
+		  std::type_info const &ti, bool trivial);
+  void verif_use (size_t loc, std::type_info const &ti, bool des);
+#endif
 
   void *
   mem (layout::loc loc)
@@ -48,10 +98,18 @@ class scon
 public:
   scon (layout const &l);
 
+#ifdef DWGREP_VERIF
+  ~scon ();
+  scon (scon const &that) = delete;
+#endif
+
   template <class State>
   State &
   get (layout::loc loc)
   {
+#ifdef DWGREP_VERIF
+    this->verif_use (loc.m_loc, typeid (State), false);
+#endif
     return *reinterpret_cast <State *> (this->mem (loc));
   }
 
@@ -59,6 +117,11 @@ public:
   void
   con (layout::loc loc, Args const&... args)
   {
+#ifdef DWGREP_VERIF
+    this->verif_con (loc.m_loc, sizeof (State), alignof (State),
+		     typeid (State),
+		     std::is_trivially_destructible <State>::value);
+#endif
     new (this->mem (loc)) State {args...};
   }
 
@@ -67,6 +130,9 @@ public:
   des (layout::loc loc)
   {
     this->get <State> (loc).~State ();
+#ifdef DWGREP_VERIF
+    this->verif_use (loc.m_loc, typeid (State), true);
+#endif
   }
 
   template <class State, class... Args>
